@@ -603,7 +603,7 @@ func (t *Transition) emitFinalEvents() Result {
 			t.latestHandlerToState = s
 		} else {
 			handler = s + SuffixEnd
-			t.latestHandlerToState = ""
+			t.latestHandlerToState = s
 		}
 
 		ret, handlerCalled := t.Machine.handle(handler, t.Mutation.Args,
